@@ -320,7 +320,7 @@ def gen(rng, tier):
         for i in rng.sample(range(1, 8), rng.randint(1, 3)):
             w[i] = 0.0
     ops = []
-    for _ in range(rng.randint(5, 40)):
+    for _ in range(rng.randint(30, 90) if (tier == "thorough" and rng.random() < 0.3) else rng.randint(5, 40)):
         if rng.random() < 0.02:
             # "uid storm": many uid adds of one name, to walk the suffix chain (_0 .. _10, _70, ...)
             nm = rng.choice(BASE_NAMES)
